@@ -4,18 +4,25 @@ What is decided here (solver verdicts over the real code, Real-ideal arithmetic)
 
   O1a  razel2sez o (getRange, getElevation, getAzimuth) is the identity on SEZ positions (every off-zenith branch of getAzimuth)
   O1b  radarObs2eciPosition inverts the real measurement chain getSlantRangeVector -> range/az/el (frames, site, date)
+  O1c  ... and does so for every one of several consecutive observations by ONE sensor whose state changes from epoch to epoch (a radar on
+       a spacecraft): nothing computed for an earlier observation of that sensor is carried into a later conversion
   O2   the Lagrange step _calculateVelocities
   O3s/O3l  lambertUniversal (short / long way), real code end to end for the first bisection evaluation: at every exit the
        returned velocities put r1 and r2 on ONE Keplerian orbit (equal angular momentum, energy and eccentricity vectors)
        that is traversed in the requested sense; no exception off the 180 deg neighbourhood; every division / root is defined
   O3any  the same for ANY value the iteration may hold at exit (providers for the iterate), up to 2 bisection steps
+  O3b  the bisection of lambertUniversal on psi: with the time comparisons coming out as a monotone time-of-flight function dictates, the k-th
+       psi evaluated is within 4 pi^2 / 2^(k-1) of the psi of the arc, for every elliptic arc of less than one revolution with e <= 0.7 (both senses);
+       y and the time are evaluated with the Stumpff pair of that same psi
+  O6s/O6l  lambertBattin after its iteration (helpers replaced by providers): the conic selected from the semi-major axis (alpha / beta branch)
+       on the side of the minimum-energy time that Lambert's theorem decides without a transcendental comparison; r1 (1 - f) = r2 (1 - g_dot)
   O4   determineTransferDirection is the half-period test of the circular orbit through the position
   O5a  LambertIOD.determineNewEstimateState over solver-chosen database contents: which stored observation is used,
        what the Lambert solver is called with, how the solution is assembled, when it refuses
   O5b  ... and it does not refuse an arc shorter than 40 % of the period (the property's IOD clause)
 
-The time-of-flight part of the Lambert problem (Stumpff functions, bisection / continued-fraction convergence), all of
-lambertBattin except the shared Lagrange step, and Kepler propagation are transcendental and OUTSIDE (see OUTSIDE).
+The time-of-flight part of the Lambert problem (Stumpff functions, convergence of the bisection in floats, Battin's continued fractions and cubic)
+and Kepler propagation are transcendental and OUTSIDE (see OUTSIDE).
 """
 from __future__ import annotations
 
@@ -24,8 +31,8 @@ import math
 import numpy as np
 import z3
 
-from symx.core import (PI_F, PathAbort, SBool, SInt, SReal, Unsupported, _real_term, assume, boolean, const_array, eq_arrays, explore,
-                       marray, mfloat, mval, real, reals, refute, rv, single_path)
+from symx.core import (PI_F, PathAbort, SBool, SInt, SReal, Unsupported, _real_term, assume, boolean, const_array, cur, declare_angle, eq_arrays, explore,
+                       free_vars, marray, mfloat, mval, real, reals, refute, rv, single_path, trig)
 from symx.runner import Ob
 from symx.stubs import shadow, sym_array
 
@@ -45,6 +52,7 @@ ENCODED = [
     "resonaate.physics.measurements:getRange", "resonaate.physics.measurements:getAzimuth", "resonaate.physics.measurements:getElevation",
     "resonaate.physics.maths:wrapAngle2Pi", "resonaate.physics.maths:fpe_equals", "resonaate.physics.maths:rot2", "resonaate.physics.maths:rot3",
     "resonaate.physics.orbit_determination.lambert:lambertUniversal", "resonaate.physics.orbit_determination.lambert:_calculateVelocities",
+    "resonaate.physics.orbit_determination.lambert:lambertBattin",
     "resonaate.physics.orbit_determination.lambert:_calcYNew", "resonaate.physics.orbit_determination.lambert:determineTransferDirection",
     "resonaate.physics.orbits.utils:universalC2C3", "resonaate.physics.orbits.kepler:keplerThirdLaw",
     "resonaate.physics.orbits.utils:getSemiMajorAxis", "resonaate.physics.orbits.utils:getPeriod", "resonaate.physics.orbits.utils:getMeanMotion",
@@ -56,10 +64,18 @@ ENCODED = [
 BOUNDS = {
     "O1a": "every SEZ slant-range 6-vector with non-zero position (all six paths of getAzimuth / wrapAngle2Pi)",
     "O1b": "every sensor and target ECI 6-state, every pair of orthogonal reduction matrices (polar motion, precession-nutation-rotation), every site latitude/longitude",
+    "O1c": "2 (quick) / 3 (thorough: O1c3) consecutive observations with one sensor id; every sensor and target ECI 6-state per observation (independent of each other), every pair of orthogonal "
+           "reduction matrices per epoch, every latitude/longitude per distinct sensor ECEF position",
     "O2": "every r1, r2 in R^3 and every f, g != 0, g_dot",
     "O3s/O3l": "every pair of linearly independent positions (transfer angle not 0/180/360 deg), any radii > 0, time of flight >= 1 s, transfer_method +1 / -1 (one obligation each), "
                "max_step = 1 (the first bisection evaluation, psi = 0, real universalC2C3); the no-exception claim additionally needs 1 + cos(dnu) >= 1e-6",
     "O3any": "same positions/senses; the iterate y and the Stumpff pair (c2 > 0, c3) are arbitrary values per evaluation; max_step <= 2 (quick) / 3 (thorough), at most 5 / 6 evaluations of y on a path",
+    "O3b": "psi* (the arc's universal variable, (eccentric anomaly swept)^2) in [0.01, 21.5] on the short way and [3.0, 38.5] on the long way: what an elliptic arc of less than one revolution with "
+           "e <= 0.7 can have ((2 pi - 2 acos 0.7)^2 = 22.0, (2 acos 0.7)^2 = 2.53, 4 pi^2 = 39.5; margins for the replay); same positions as O3*; time of flight >= 1 s; the iterate y > 0 and the "
+           "Stumpff pair (c2 > 0, c3) are arbitrary values per evaluation; max_step = 5 (quick) / 7 (thorough)",
+    "O6s/O6l": "any radii > 0, any transfer angle in (0, 180) resp. (180, 360) deg (given by its quarter angle), time of flight >= 1 s; the results of the iteration helpers (xi; x, y > 0) are arbitrary; "
+               "max_step = 1 (the post-processing does not depend on the number of iterations); elliptic outcome (semi-major axis > 0); the conic claim on the short way for time of flight > pi sqrt(a_min^3/mu), "
+               "on the long way for time of flight < pi sqrt(a_min^3/mu) (a_min = s/2)",
     "O4": "every position with 6378 km <= |r| <= 500000 km (3-vector, and the 6-vector AdaptiveFilter._calculateDeltaV passes with speed <= 12 km/s), every transit time > 0",
     "O5a": "2 (quick) / 3 (thorough) stored observations with solver-chosen target id (this RSO / another), sensor type (optical / radar), epoch (any, distinct, before now); "
            "0..2 current observations (optical first, radar second or absent); any detection time < current time; any positions with |p| >= 6378 km",
@@ -67,11 +83,14 @@ BOUNDS = {
 }
 OUTSIDE = [
     "time of flight: that the returned arc takes exactly delta_time (Stumpff functions c2(psi), c3(psi) are transcendental; convergence of the bisection within max_step)",
-    "lambertBattin: geometry terms, continued fractions xi/kappa, cubic, and the eccentric-anomaly post-processing (half/quarter transfer angles and "
-    "the time equation t = sqrt(a^3/mu)(dE - sin dE) are transcendental); only its Lagrange step _calculateVelocities is covered (O2)",
+    "lambertBattin: the iteration itself (l, m, continued fractions xi / kappa, cubic: replaced by providers in O6), the value of g = dt - sqrt(a^3/mu)(dE - sin dE), and the choice of the conic "
+    "for times of flight BETWEEN the minimum-energy time and pi sqrt(a_min^3/mu) (short way: t_min < dt <= pi sqrt(a_min^3/mu); long way: pi sqrt(a_min^3/mu) <= dt < t_min): there the comparison "
+    "dt > sqrt(a_min^3/mu)(pi - beta + sin beta) is transcendental in beta (a wrong sign of sin beta in t_min would not be seen); hyperbolic branch (arcsinh / cosh)",
+    "lambertUniversal: that the time comparison is monotone in psi is a contract of O3b (true of the universal time-of-flight function, not proved here); convergence in doubles within max_step; "
+    "the y < 0 inner loop is not part of O3b (O3any explores it); hyperbolic psi* < 0",
     "lambertGauss (not named by the property)",
     "Kepler propagation of the arc (solveKeplerProblemUniversal: Newton iteration on the universal Kepler equation)",
-    "lambertUniversal beyond the first bisection step with the real _calcYNew (the psi_low += 0.001 psi_up inner loop unrolls ~1000 times); covered for arbitrary iterate values by O3any instead",
+    "lambertUniversal beyond the first bisection step with the real _calcYNew (the psi_low += 0.001 psi_up inner loop unrolls ~1000 times); covered for arbitrary iterate values by O3any / O3b instead",
     "ecef2lla closed form (a functional stub: same ECEF position -> same latitude/longitude), numeric content of the FK5 reduction (orthogonal-matrix cut, orthogonality proved in C04-O4a)",
     "julianDateToDatetime / ScenarioTime.convertToJulianDate rounding (C05); in O1b the observation's Julian date maps to the epoch the measurement was taken at",
     "targets within 1e-15 rad of the zenith (getAzimuth's documented edge case, azimuth taken from the velocity): O1a proves only the vertical component and the zero rates on that branch; the horizontal offset there is below 1e-15 x range by the branch condition",
@@ -83,6 +102,18 @@ ASSUMPTIONS = [
     "O1b: ReductionParams.build(date) -> symbolic orthogonal rot_w, rot_pnr (and transposes) per date token; ecef2lla -> functional stub; "
     "julianDateToDatetime(JulianDate(obs.julian_date)) -> the date token of the measurement; razel2sez(range, el, az, 0, 0, 0) called with the observation's own three "
     "values returns the SEZ vector they were measured from (cut justified by O1a; any other argument pattern runs the real razel2sez)",
+    "O1c: as O1b, per observation: its own date token, reduction matrices and ecef2lla value; the stub Observation carries every column of the real class (one sensor_id / sensor_type for all)",
+    "O3b: _calcYNew -> provider of an arbitrary y > 0, universalC2C3 -> provider of arbitrary (c2 > 0, c3); CONTRACT (monotone time of flight): with t_k = (x^3 c3 + A sqrt(y))/sqrt(mu), "
+    "x = sqrt(y/c2) (the universal time-of-flight equation, Vallado Alg. 58) formed by the harness from the provider's values and the A handed to the helper, t_k <= delta_time <=> psi_k <= psi*; "
+    "A = tm sqrt(r1 r2 (1 + cos dnu)) is proved; psi* of an elliptic arc is (eccentric anomaly swept)^2",
+    "O6*: the transfer angle is 4 q with q in (0, pi/2) an angle variable ((cos q, sin q) on the unit circle, both > 0; sin 4q > 0 and 4q < pi on the short way, sin 4q < 0 and 4q > pi on the long way); "
+    "r1.r2 = r1 r2 cos 4q, |r1 x r2| = tm r1 r2 sin 4q; arctan2 / wrapAngle2Pi in the lambert module -> CUT: wrapAngle2Pi(arctan2(y, x)) = 4 q, with y = sin 4q and x = cos 4q PROVED per path "
+    "(wrapAngle2Pi itself is decided in O1a / C04); _battinGetXi, _cubicSplineBattin -> providers of arbitrary values (y > 0); _calculateVelocities -> recording wrapper around the real function (f, g, g_dot "
+    "are observed where they cross this helper's interface; O2 covers the helper); oracle quantities (Battin eq. 7.102 / Vallado Alg. 59) formed by the harness over the same inputs: chord c, semi-perimeter s, "
+    "r_op = (r1 + r2 + 2 sqrt(r1 r2) cos(dnu/2))/4, semi-major axis a = mu dt^2 / (16 r_op^2 x y^2), alpha0 = 2 arcsin sqrt(s/2a), beta0 = 2 arcsin sqrt((s-c)/2a); LAMBERT'S THEOREM: minimum-energy time "
+    "= sqrt(a_min^3/mu)(pi -/+ (beta_m - sin beta_m)) lies below (short way) / above (long way) pi sqrt(a_min^3/mu); TRANSCENDENTAL AXIOMS, instantiated for the arcsin applications of the path: "
+    "arcsin u >= u and sin 2t <= 2t for u, t >= 0; proofs use cone-of-influence slicing of the path condition (sound for unsat), counterexample candidates are searched at a pinned transfer angle "
+    "(4 atan(5/12), 4 atan(12/5)) and replayed",
     "O3*: r1, r2 are abstract vectors a r1 + b r2 + c (r1 x r2) with Gram matrix (n1^2, d, n2^2), |r1 x r2| = X > 0, X^2 = n1^2 n2^2 - d^2; "
     "numpy norm/dot/cross in the lambert module are shadowed by the exact bilinear operations of that representation; math.sqrt -> sqrt contract",
     "O3any: _calcYNew -> provider of an arbitrary real (long way: arbitrary positive real, as the real helper is positive there), universalC2C3 -> provider of arbitrary (c2 > 0, c3); "
@@ -97,7 +128,7 @@ ASSUMPTIONS = [
 LEVEL_TEXT = ("Bounded symbolic verification of the algebraic content: the observation inversion is proved exact for all geometries; for the universal-variable solver it is proved "
               "that at every exit the two end states lie on one Keplerian orbit traversed in the requested sense, for all positions and both senses; the IOD pipeline is "
               "decided over all database contents within the size bound. The transcendental time-of-flight equation and the Battin iteration are outside.")
-LEVEL_NOTE = ("Real arithmetic; trig via angle algebra; abstract-vector representation of (r1, r2); FK5 content, ecef2lla, time-of-flight/convergence, lambertBattin internals and "
+LEVEL_NOTE = ("Real arithmetic; trig via angle algebra; abstract-vector representation of (r1, r2); FK5 content, ecef2lla, time-of-flight values / convergence in doubles, the Battin iteration (continued fractions, cubic) and "
               "Kepler propagation are outside; O5b reports the single-pass gate defect (3-vector handed to checkSinglePass) until it is repaired.")
 
 I3 = const_array(np.eye(3))
@@ -257,7 +288,35 @@ def replay_obs(d):
     return worst > 1e-7 * sc, {"max_abs_error_km": out}
 
 
-def o1b_frames(rep):
+def replay_obs_seq(d):
+    """Consecutive observations taken by ONE sensor (same sensor_id) whose state changes between the epochs, converted in the order taken."""
+    from resonaate.physics.transforms import methods as T
+
+    sensors, targets = [np.array(x, dtype=float) for x in d["sensors"]], [np.array(x, dtype=float) for x in d["targets"]]
+    jd0 = 2459304.374333333
+    out, worst = [], 0.0
+    obs = [_real_obs(sv, tv, jd0 + 120.0 * k / 86400.0) for k, (sv, tv) in enumerate(zip(sensors, targets))]
+    for k, ob in enumerate(obs):
+        pos = T.radarObs2eciPosition(ob)
+        e = float(np.abs(pos - targets[k][:3]).max())
+        sc = max(1.0, float(np.abs(sensors[k][:3]).max()), float(np.abs(targets[k][:3]).max()))
+        out.append({"observation": k, "max_abs_error_km": e})
+        worst = max(worst, e / sc)
+    return worst > 1e-7, {"conversions_in_order": out}
+
+
+class _Obs1:
+    """Stands for a stored radar Observation row: every column the real class has."""
+
+    id = None  # noqa: A003
+    sensor_id = 300077  # not an identifier the replays use: nothing a symbolic run leaves in module-level state may reach a replay
+    target_id = 10001
+
+
+def _o1_frames(rep, nobs):
+    """`nobs` observations taken one after the other by the same sensor (same sensor_id / type) at different epochs, each with
+    its own sensor and target state, converted by the real radarObs2eciPosition in the order they were taken."""
+    from resonaate.common.labels import SensorLabel
     from resonaate.physics.transforms import methods as T
 
     with single_path() as p:
@@ -292,69 +351,114 @@ def o1b_frames(rep):
             llas.append((x, out))
             return out
 
-        D = _Token("D")
-        sensor, target = reals("sen", 6), reals("tgt", 6)
+        sfx = lambda k: "" if k == 0 else str(k)  # noqa: E731
+        dates = [_Token("D" + sfx(k)) for k in range(nobs)]
+        sensors = [reals("sen" + sfx(k), 6) for k in range(nobs)]
+        targets = [reals("tgt" + sfx(k), 6) for k in range(nobs)]
+        obs, sezs, poss = [], [], []
         with shadow(T, ReductionParams=RP, array=sym_array, ecef2lla=lla):
-            sez = T.getSlantRangeVector(sensor, target, D)
-
-            class Obs:
-                pass
-
-            o = Obs()
-            o.range_km, o.elevation_rad, o.azimuth_rad = real("rng"), real("el"), real("az")
-            o.range_rate_km_p_sec = real("rr")
-            o.julian_date = real("jd")
-            o.sensor_eci = sensor
+            for k in range(nobs):
+                sezs.append(T.getSlantRangeVector(sensors[k], targets[k], dates[k]))
+                o = _Obs1()
+                o.range_km, o.elevation_rad, o.azimuth_rad = real("rng" + sfx(k)), real("el" + sfx(k)), real("az" + sfx(k))
+                o.range_rate_km_p_sec = real("rr" + sfx(k))
+                o.julian_date = real("jd" + sfx(k))
+                o.sensor_eci = sensors[k]
+                o.sensor_type = SensorLabel.ADV_RADAR
+                o.pos_x_km, o.pos_y_km, o.pos_z_km, o.vel_x_km_p_sec, o.vel_y_km_p_sec, o.vel_z_km_p_sec = sensors[k]
+                obs.append(o)
             real_r2s = T.razel2sez
 
             def r2s(rng, el, az, a=0, b=0, c=0):
-                if rng is o.range_km and el is o.elevation_rad and az is o.azimuth_rad and all(isinstance(x, (int, float)) and x == 0 for x in (a, b, c)):
-                    seen["r2s"] += 1
-                    return np.concatenate((sez[:3], np.array([SReal(0)] * 3, dtype=object)))
+                for k, o in enumerate(obs):
+                    if rng is o.range_km and el is o.elevation_rad and az is o.azimuth_rad and all(isinstance(x, (int, float)) and x == 0 for x in (a, b, c)):
+                        seen["r2s"] += 1
+                        return np.concatenate((sezs[k][:3], np.array([SReal(0)] * 3, dtype=object)))
                 seen["r2s_real"] += 1
                 return real_r2s(rng, el, az, a, b, c)
 
-            dates = {}
+            other = {}
 
             def jd2dt(x):
                 seen["jd"] += 1
-                key = id(x)
-                if x is o.julian_date:
-                    return D
-                if key not in dates:
-                    dates[key] = _Token(f"E{len(dates)}")
-                return dates[key]
+                for k, o in enumerate(obs):
+                    if x is o.julian_date:
+                        return dates[k]
+                if id(x) not in other:
+                    other[id(x)] = _Token(f"E{len(other)}")
+                return other[id(x)]
 
             with shadow(T, razel2sez=r2s, JulianDate=lambda x: x, julianDateToDatetime=jd2dt):
-                pos = T.radarObs2eciPosition(o)
+                for o in obs:
+                    poss.append(T.radarObs2eciPosition(o))
         cons = p.constraints()
         rep.note(f"razel2sez cut used {seen['r2s']}x, real razel2sez {seen['r2s_real']}x, distinct ecef2lla arguments {len(llas)}, reductions {sorted(reds)}")
-        if np.shape(pos) != (3,):
-            rep.error("shape", f"radarObs2eciPosition returned shape {np.shape(pos)}, a 3-vector is documented")
-            return
-        inputs = lambda m: {"sensor": marray(m, sensor), "target": marray(m, target)}  # noqa: E731
+        for pos in poss:
+            if np.shape(pos) != (3,):
+                rep.error("shape", f"radarObs2eciPosition returned shape {np.shape(pos)}, a 3-vector is documented")
+                return
+        if nobs == 1:
+            inputs = lambda m: {"sensor": marray(m, sensors[0]), "target": marray(m, targets[0])}  # noqa: E731
+            replay = replay_obs
+        else:
+            inputs = lambda m: {"sensors": [marray(m, x) for x in sensors], "targets": [marray(m, x) for x in targets]}  # noqa: E731
+            replay = replay_obs_seq
         # a counterexample (only searched when the general identity fails) is asked for a realistic geometry so that it replays on the real
         # ecef2lla / FK5 code: site 6300..50000 km from the centre and >= 1000 km off the polar axis, target >= 100 km from the site
         q = lambda v: (v[0] * v[0] + v[1] * v[1] + v[2] * v[2]).t  # noqa: E731
-        region = [q(sensor) >= 6300 ** 2, q(sensor) <= 50000 ** 2, (sensor[0] * sensor[0] + sensor[1] * sensor[1]).t >= 1000 ** 2, q(target - sensor) >= 100 ** 2,
-                  q(target) <= 100000 ** 2] + [z3.And(x.t >= -10, x.t <= 10) for x in list(sensor[3:]) + list(target[3:])]
+        region, pins = [], []
+        for k in range(nobs):
+            sensor, target = sensors[k], targets[k]
+            region += [q(sensor) >= 6300 ** 2, q(sensor) <= 50000 ** 2, (sensor[0] * sensor[0] + sensor[1] * sensor[1]).t >= 1000 ** 2, q(target - sensor) >= 100 ** 2,
+                       q(target) <= 100000 ** 2] + [z3.And(x.t >= -10, x.t <= 10) for x in list(sensor[3:]) + list(target[3:])]
+            if nobs > 1:
+                region += [q(target) >= 6400 ** 2]
+                # the platform moves: consecutive sensor positions lie in different (rotating) octants, 6500..7500 km along alternating axes
+                ax = k % 2
+                region += [sensor[ax].t >= 6500, sensor[ax].t <= 7500, sensor[1 - ax].t >= -500, sensor[1 - ax].t <= 500, sensor[2].t >= -500, sensor[2].t <= 500]
+        # candidate search only: the reduction matrices pinned to the identity (any model of the pinned system is a model of the general one)
+        for Red in reds.values():
+            pins += [eq_arrays(Red.rot_w, I3), eq_arrays(Red.rot_pnr, I3)]
         from symx.poly import NotPolynomial, prove_linearized_auto
 
-        for i in range(3):
-            goal = pos[i].t == target[i].t
-            try:
-                v = prove_linearized_auto([goal], cons, rounds=8, timeout_ms=60000)
-            except NotPolynomial:
-                v = None
-            what = "radarObs2eciPosition(observation of target from sensor) = target position, component-wise"
-            if v is not None and v.status == "unsat":
-                rep._item(f"position[{i}]", "prove", v)
-                rep.sample({"obligation": f"O1b:position[{i}]", "verdict": "unsat", "what": what})
-                continue
-            rep.prove(f"position[{i}][realistic geometry]", goal, cons + region, timeout_ms=90000, inputs=inputs, replay=replay_obs, sample=what)
-            if _done(rep):
-                return
-        rep.reachable("orthogonal-matrices-exist", cons + [sensor[0].t == 6378, target[0].t == 7000, target[1].t == 100], timeout_ms=60000)
+        for k in range(nobs):
+            for i in range(3):
+                goal = poss[k][i].t == targets[k][i].t
+                lab = f"position[{i}]" if nobs == 1 else f"obs{k}/position[{i}]"
+                try:
+                    v = prove_linearized_auto([goal], cons, rounds=8, timeout_ms=60000)
+                except NotPolynomial:
+                    v = None
+                what = ("radarObs2eciPosition(observation of target from sensor) = target position, component-wise" if nobs == 1 else
+                        "the k-th of several conversions for one sensor (whose state differs from epoch to epoch) = the k-th target position: no state carried between calls")
+                if v is not None and v.status == "unsat":
+                    rep._item(lab, "prove", v)
+                    rep.sample({"obligation": f"{rep.ob}:{lab}", "verdict": "unsat", "what": what})
+                    continue
+                # the identity is not provable: look for a counterexample, first with the reduction matrices pinned (cheap), then in general
+                cand = refute(goal, cons + region + pins, 30000)
+                if cand.status == "sat":
+                    rep.prove(lab + "[realistic geometry, identity reduction]", goal, cons + region + pins, timeout_ms=60000, inputs=inputs, replay=replay, sample=what)
+                else:
+                    rep.prove(lab + "[realistic geometry]", goal, cons + region, timeout_ms=90000, inputs=inputs, replay=replay, sample=what)
+                if _done(rep):
+                    return
+        wit = []
+        for k in range(nobs):
+            wit += [sensors[k][k % 2].t == 6378 + 600 * k, targets[k][0].t == 7000, targets[k][1].t == 100]
+        rep.reachable("orthogonal-matrices-exist", cons + wit, timeout_ms=60000)
+
+
+def o1b_frames(rep):
+    _o1_frames(rep, 1)
+
+
+def o1c_moving(rep):
+    _o1_frames(rep, 2)
+
+
+def o1c_moving3(rep):
+    _o1_frames(rep, 3)
 
 
 # =====================================================================================
@@ -716,6 +820,388 @@ def o3_any_quick(rep):
 
 def o3_any_thorough(rep):
     _o3_any(rep, 3, 6)
+
+
+# =====================================================================================
+# O3b  lambertUniversal: the bisection encloses the solution of every single-revolution elliptic arc
+# =====================================================================================
+E_MAX = 0.7  # the property's eccentricity bound
+_HALF = 2.0 * math.acos(E_MAX)  # eccentric anomaly swept by the arc of e = 0.7 centred on the periapsis that sweeps 180 deg of true anomaly
+PSI_RANGE = {1: (0.01, 21.5), -1: (3.0, 38.5)}
+"""psi = (eccentric anomaly swept)^2 of an elliptic arc with e <= 0.7: short way (0, (2 pi - 2 acos e)^2 = 22.02), long way ((2 acos e)^2 = 2.53, 4 pi^2 = 39.48); margins for the replay"""
+
+
+def _arc_for_psi(psi, tm, a=12000.0):
+    """A concrete Keplerian arc (e <= 0.7, generic orientation) sweeping sqrt(psi) of eccentric anomaly in the sense tm: r1, v1, r2, v2, dt, description."""
+    from resonaate.physics.bodies import Earth
+
+    mu = Earth.mu
+    dE = math.sqrt(psi)
+    Q = _generic_rotation()
+    for e in (0.7, 0.5, 0.3, 0.1):
+        for centre in (math.pi, 0.0, math.pi / 2, 3 * math.pi / 2):
+            E1, E2 = centre - dE / 2, centre + dE / 2
+            nu = lambda E: 2.0 * math.atan2(math.sqrt(1 + e) * math.sin(E / 2), math.sqrt(1 - e) * math.cos(E / 2))  # noqa: E731
+            dnu = (nu(E2) - nu(E1)) % (2 * math.pi)
+            if not (math.radians(5) < dnu < math.radians(355)) or abs(dnu - math.pi) < math.radians(5):
+                continue
+            if (1 if dnu < math.pi else -1) != tm:
+                continue
+            b = a * math.sqrt(1 - e * e)
+
+            def state(E):
+                r = a * (1 - e * math.cos(E))
+                k = math.sqrt(mu * a) / r
+                return Q @ np.array([a * (math.cos(E) - e), b * math.sin(E), 0.0]), Q @ np.array([-k * math.sin(E), k * math.sqrt(1 - e * e) * math.cos(E), 0.0])
+
+            (p1, w1), (p2, w2) = state(E1), state(E2)
+            dt = math.sqrt(a ** 3 / mu) * (dE - e * (math.sin(E2) - math.sin(E1)))
+            return p1, w1, p2, w2, dt, {"a_km": a, "e": e, "E1_deg": math.degrees(E1), "eccentric_anomaly_swept_deg": math.degrees(dE), "transfer_angle_deg": math.degrees(dnu)}
+    return None
+
+
+def replay_bracket(d):
+    """The elliptic arc whose universal variable psi is the solver's psi*: the real solver (default iteration limit) must return its end-point velocities."""
+    from resonaate.physics.orbit_determination import lambert as L
+
+    tm = int(d["tm"])
+    arc = _arc_for_psi(float(d["psi_star"]), tm)
+    if arc is None:
+        return False, {"no arc with e <= 0.7 and this sense sweeps sqrt(psi*) of eccentric anomaly": d}
+    p1, w1, p2, w2, dt, what = arc
+    try:
+        v1, v2 = L.lambertUniversal(p1, p2, dt, tm)
+    except Exception as e:  # noqa: BLE001
+        return True, {"raised": repr(e), "arc": what}
+    err = max(float(np.linalg.norm(v1 - w1)), float(np.linalg.norm(v2 - w2)))
+    bad = not np.isfinite(err) or err > 1e-5
+    return bool(bad), {"arc": what, "time_of_flight_s": dt, "velocity_error_km_s": err, "returned_v1": v1, "true_v1": w1}
+
+
+def _o3_bracket(rep, max_step):
+    from resonaate.physics.bodies import Earth
+    from resonaate.physics.orbit_determination import lambert as L
+
+    if not (hasattr(L, "_calcYNew") and hasattr(L, "universalC2C3")):
+        rep.note("lambertUniversal no longer evaluates its iterate through _calcYNew / universalC2C3: the bracket obligation does not apply")
+        return
+    mu = Earth.mu
+    W = 4 * PI_F * PI_F  # half width of the search interval: psi of one full revolution
+    for tm in (1, -1):
+        lo, hi = PSI_RANGE[tm]
+
+        def run(tm=tm, lo=lo, hi=hi):
+            fr = Frame(real("n1"), real("n2"), real("d"), real("X"))
+            r1, r2 = fr.vec(1, 0), fr.vec(0, 1)
+            dt, ps = real("dt"), real("psi_star")
+            assume(dt.t >= 1, ps.t >= rv(lo), ps.t <= rv(hi), *fr.facts())
+            evals = []
+
+            def calc_y(r0, r, a, psi, c2, c3):
+                k = len(evals) + 1
+                y = real(f"y{k}")
+                assume(y.t > 0)  # cut: the y < 0 inner loop (short way, far hyperbolic side) is explored in O3any
+                # universal time-of-flight equation (Vallado Alg. 58 / Bate-Mueller-White 5.3): sqrt(mu) t = x^3 c3 + A sqrt(y), x = sqrt(y / c2);
+                # contract: t is strictly increasing in psi, so t(psi_k) <= delta_time  <=>  psi_k <= psi*
+                t_k = ((y / c2).sqrt() ** 3 * c3 + a * y.sqrt()) / math.sqrt(mu)  # sqrt(mu): the double, as in the code
+                assume((t_k.t <= dt.t) == (rv(psi) <= ps.t))
+                own = stumpff.get(float(psi))
+                evals.append((psi, a, z3.BoolVal(False) if own is None else z3.And(_S(c2).t == own[0].t, _S(c3).t == own[1].t)))
+                return y
+
+            n = [0]
+            stumpff = {}
+
+            def c2c3(psi):
+                n[0] += 1
+                c2, c3 = real(f"c2_{n[0]}"), real(f"c3_{n[0]}")
+                assume(c2.t > 0)
+                stumpff[float(psi)] = (c2, c3)
+                return c2, c3
+
+            with shadow(L, sqrt=ssqrt, norm=vnorm, dot=vdot, cross=vcross, _calcYNew=calc_y, universalC2C3=c2c3):
+                L.lambertUniversal(r1, r2, dt, tm, max_step=max_step)
+            return evals, fr
+
+        res = explore(run, max_paths=4000, max_depth=120, branch_timeout_ms=4000)
+        full = [r for r in res if r.exc is None and len(r.out[0]) == max_step]
+        rep.note(f"tm={tm}: paths={len(res)} leaving by the step bound={len(full)}")
+        ps = z3.Real("psi_star")
+        inputs = lambda m, tm=tm: {"psi_star": mfloat(m, ps), "tm": tm}  # noqa: E731
+        kw = dict(inputs=inputs, replay=replay_bracket)
+        name = "short" if tm == 1 else "long"
+        first = True
+        for r in res:
+            if _done(rep):
+                return
+            if r.exc is not None:
+                if isinstance(r.exc, ValueError):
+                    continue  # documented refusals (180 deg singularity); O3s/O3l decide their reachability
+                rep.error(f"exception[{name}][{_tag(r)}]", repr(r.exc))
+                continue
+            evals, fr = r.out
+            tag = _tag(r)
+            cons = r.constraints
+            if first or len(evals) == max_step:
+                if rep.feasible(f"bracket/{name}/path-{tag}", cons, timeout_ms=5000) is None:
+                    continue
+            if first:
+                a = evals[0][1]
+                rep.prove(f"bracket/{name}/A[{tag}]", z3.And(_S(a).t * _S(a).t == fr.n1.t * fr.n2.t + fr.d.t, (_S(a).t > 0) == z3.BoolVal(tm == 1)),
+                          r.path.assumes + r.path.domain, sample="the geometry term handed to the iterate helper is A = tm sqrt(r1 r2 (1 + cos dnu))")
+                first = False
+            k = len(evals)
+            rep.prove(f"bracket/{name}/same-psi#{k}[{tag}]", evals[-1][2], cons, timeout_ms=10000,
+                      sample="the iterate at psi_k is evaluated with the Stumpff pair universalC2C3 returned for that same psi_k (no stale pair)", **kw)
+            if _done(rep):
+                return
+            psi_k = rv(evals[-1][0])
+            bound = rv(W / 2 ** (k - 1)) + rv(1e-9)
+            goal = z3.And(psi_k - ps <= bound, ps - psi_k <= bound)
+            robust = z3.Or(psi_k - ps > bound + 1, ps - psi_k > bound + 1)
+            _prove_eq(rep, f"bracket/{name}/encloses#{k}[{tag}]", goal, robust, cons, timeout_ms=20000,
+                      sample="the k-th value of psi at which the iterate is evaluated is within 4 pi^2 / 2^(k-1) of the arc's psi = (eccentric anomaly swept)^2, "
+                             "whenever the earlier time comparisons came out as the monotone time-of-flight function dictates", **kw)
+        if len(full) < 2 ** (max_step - 1):
+            rep.error(f"reach[{name}]", f"paths leaving by the step bound: {len(full)}")
+
+
+def o3b_quick(rep):
+    _o3_bracket(rep, 5)
+
+
+def o3b_thorough(rep):
+    _o3_bracket(rep, 7)
+
+
+# =====================================================================================
+# O6  lambertBattin: the conic chosen after the iteration (elliptic post-processing)
+# =====================================================================================
+def _fresh_no(v):
+    k = v.rfind("!")
+    return int(v[k + 1:]) if k >= 0 and v[k + 1:].isdigit() else None
+
+
+def _cone(goal, path, base=()):
+    """Cone-of-influence slicing of one path's constraints for one goal: the contracts defining the auxiliary variables (roots, angles) the goal
+    depends on, transitively, plus every branch / domain condition over those variables.  Dropping constraints is sound for `unsat`."""
+    from symx.core import free_vars
+
+    need = set(free_vars(goal)) | set(base)
+    defs = [(c, free_vars(c)) for c in path.assumes]
+    kept = [False] * len(defs)
+    changed = True
+    while changed:
+        changed = False
+        for i, (c, fv) in enumerate(defs):
+            if kept[i]:
+                continue
+            fresh = [v for v in fv if _fresh_no(v) is not None]
+            if fresh:
+                if max(fresh, key=_fresh_no) in need:  # the contract that introduced its newest variable
+                    kept[i] = True
+                    if not fv <= need:
+                        need |= fv
+                        changed = True
+            elif fv <= need:
+                kept[i] = True
+    out = [c for k, (c, _) in zip(kept, defs) if k]
+    return out + [c for c in path.domain + path.pc if free_vars(c) <= need]
+
+
+class _Ang:
+    """arctan2(y, x) before it is wrapped."""
+
+    def __init__(self, y, x):
+        self.y, self.x = _S(y), _S(x)
+
+
+def replay_battin(d):
+    """Real lambertBattin on the solver's geometry / time of flight; the returned velocities must reproduce the arc (real Kepler propagation)."""
+    from resonaate.physics.bodies import Earth
+    from resonaate.physics.orbit_determination import lambert as L
+    from resonaate.physics.orbits.kepler import solveKeplerProblemUniversal
+
+    r1, r2 = gram_pair(d["n1"], d["n2"], d["d"])
+    tm, dt = int(d["tm"]), float(d["dt"])
+    try:
+        v1, v2 = L.lambertBattin(r1, r2, dt, tm)
+    except Exception as e:  # noqa: BLE001
+        return True, {"raised": repr(e), "r1": r1, "r2": r2}
+    if not (np.all(np.isfinite(v1)) and np.all(np.isfinite(v2))):
+        return True, {"non-finite velocities": [v1, v2]}
+    mu = Earth.mu
+    h = np.cross(r1, v1)
+    ecc = float(np.linalg.norm(np.cross(v1, h) / mu - r1 / np.linalg.norm(r1)))
+    sense = float(tm * (h @ np.cross(r1, r2)))
+    try:
+        arr = solveKeplerProblemUniversal(np.concatenate((r1, v1)), dt)
+        miss, vmiss = float(np.linalg.norm(arr[:3] - r2)), float(np.linalg.norm(arr[3:] - v2))
+    except Exception as e:  # noqa: BLE001
+        return True, {"returned velocity cannot be propagated": repr(e), "v1": v1}
+    bad = miss > 1e-6 * max(d["n1"], d["n2"]) * 10 or vmiss > 1e-5 or sense <= 0
+    return bool(bad), {"arrival_miss_km": miss, "final_velocity_mismatch_km_s": vmiss, "eccentricity_of_returned_orbit": ecc, "sense": sense, "r1": r1, "r2": r2, "v1": v1, "v2": v2}
+
+
+def _o6_battin(rep, tm):
+    from resonaate.physics.bodies import Earth
+    from resonaate.physics.orbit_determination import lambert as L
+
+    need = ("_battinGetXi", "_cubicSplineBattin", "_calculateVelocities", "wrapAngle2Pi", "arctan2")
+    if not all(hasattr(L, k) for k in need):
+        rep.note("lambertBattin no longer goes through " + ", ".join(k for k in need if not hasattr(L, k)) + ": the cut points of this obligation are gone (outside)")
+        return
+    mu = Earth.mu
+    PI = rv(PI_F)
+
+    def run():
+        n1, n2, dt, q = real("n1"), real("n2"), real("dt"), real("q")
+        cq, sq = declare_angle(q)
+        c4, s4 = (SReal(t) for t in trig((4 * q).t))
+        # the transfer angle is 4 q: (0, pi) on the short way, (pi, 2 pi) on the long way
+        assume(n1.t > 0, n2.t > 0, dt.t >= 1, q.t > 0, q.t < rv(PI_F / 2), cq > 0, sq > 0)
+        if tm == 1:
+            assume(4 * q.t < PI, s4.t > 0)
+        else:
+            assume(4 * q.t > PI, s4.t < 0)
+        fr = Frame(n1, n2, n1 * n2 * c4, tm * n1 * n2 * s4)
+        r1, r2 = fr.vec(1, 0), fr.vec(0, 1)
+        info = {"cuts": [], "base": set(), "cq": cq, "sq": sq}
+        for c in cur().assumes:
+            info["base"] |= free_vars(c)
+
+        def wrap(theta):
+            # cut: wrapAngle2Pi(arctan2(y, x)) is the angle in [0, 2 pi) with sine y and cosine x, i.e. 4 q once y = sin 4q and x = cos 4q are proved
+            if not isinstance(theta, _Ang):
+                raise Unsupported("wrapAngle2Pi of something that is not arctan2(sin, cos) of the transfer angle")
+            info["cuts"].append(z3.And(theta.y.t == s4.t, theta.x.t == c4.t))
+            return 4 * q
+
+        def xi(x, *a, **k):
+            return real("xi")
+
+        def cubic(y, h1, h2, m, l, lim):  # noqa: E741
+            xn, yn = real("xn"), real("yn")
+            assume(yn.t > 0)
+            info["xy"] = (xn, yn)
+            return xn, yn
+
+        real_cv = L._calculateVelocities
+
+        def cv(p1, p2, f, g, gd):
+            info["fg"] = (_S(f), _S(g), _S(gd))
+            return real_cv(p1, p2, f, g, gd)
+
+        with shadow(L, sqrt=ssqrt, norm=vnorm, dot=vdot, cross=vcross, arctan2=_Ang, wrapAngle2Pi=wrap, _battinGetXi=xi, _cubicSplineBattin=cubic, _calculateVelocities=cv):
+            v1, v2 = L.lambertBattin(r1, r2, dt, tm, max_step=1)
+        xn, yn = info["xy"]
+        # the oracle's quantities (Battin 7.102 / Vallado Alg. 59) over the same inputs: chord, semi-perimeter, r_op, and the semi-major axis the
+        # iteration's result (x, y) stands for
+        cos_dnu = vdot(r1, r2) / (n1 * n2)
+        c_ = ssqrt(n1 ** 2 + n2 ** 2 - 2.0 * n1 * n2 * cos_dnu)
+        s_ = (n1 + n2 + c_) * 0.5
+        rop = 0.25 * (n1 + n2 + 2 * ssqrt(n1 * n2) * np.cos(4 * q * 0.5))
+        A = (mu * dt ** 2) / (16.0 * rop ** 2 * xn * yn ** 2)
+        al = 2.0 * np.arcsin(ssqrt(s_ / (2.0 * A)))
+        be = 2.0 * np.arcsin(ssqrt((s_ - c_) / (2.0 * A)))
+        cosE = np.cos(al + be)
+        K = ssqrt((s_ * 0.5) ** 3 / mu)  # sqrt(a_min^3 / mu), a_min = s / 2
+        return fr, dt, v1, v2, info, A, cosE, K, c4
+
+    res = explore(run, max_paths=200, max_depth=60, branch_timeout_ms=2500)
+    rep.note(f"paths={len(res)}")
+    name = "short" if tm == 1 else "long"
+    n_ell = n_wit = 0
+    V = {k: z3.Real(k) for k in ("n1", "n2", "dt")}
+    for r in res:
+        if _done(rep):
+            return
+        tag = _tag(r)
+        if r.exc is not None:
+            if isinstance(r.exc, TypeError) and "arcsinh" in str(r.exc):
+                continue  # hyperbolic branch (outside: unbound orbits)
+            if isinstance(r.exc, (NotImplementedError, ValueError)):
+                continue  # documented refusals
+            rep.error(f"exception[{tag}]", repr(r.exc))
+            continue
+        fr, dt, v1, v2, info, A, cosE, K, c4 = r.out
+        base = info["base"]
+        # spurious paths (a branch query of the exploration timed out) are discarded on the sliced path condition
+        if refute(z3.BoolVal(False), _cone(z3.BoolVal(True), r.path, base), 10000).status == "unsat":
+            continue
+        n_ell += 1
+        f, g, gd = info["fg"]
+        ax = []
+        for a_var, u in r.path.apps.get("arcsin", []):
+            cs = r.path.trig.get(("atom", a_var.get_id()))
+            ax.append(z3.Implies(u >= 0, a_var >= u))  # arcsin u >= u on [0, 1]
+            if cs is not None:
+                ax.append(z3.Implies(u >= 0, 2 * a_var >= 2 * u * cs[0]))  # sin 2t <= 2t for t >= 0
+                ax.append(z3.Implies(u >= 0, K.t * 2 * a_var >= K.t * 2 * u * cs[0]))  # the same, times K = sqrt(a_min^3/mu) >= 0 (instance the time comparison needs)
+        d_t = (fr.n1 * fr.n2 * c4).t
+
+        def inputs(m, d_t=d_t):
+            return {"n1": mfloat(m, V["n1"]), "n2": mfloat(m, V["n2"]), "d": mfloat(m, d_t), "dt": mfloat(m, V["dt"]), "tm": tm}
+
+        kw = dict(inputs=inputs, replay=replay_battin)
+        n1, n2 = fr.n1.t, fr.n2.t
+        geom = [n1 >= 7000, n1 <= 50000, info["cq"] * 13 == (12 if tm == 1 else 5), info["sq"] * 13 == (5 if tm == 1 else 12), A.t > 0]
+
+        def decide(label, goal, hyps, robust, region, what, timeout_ms=40000):
+            """unsat on the goal's cone of influence proves it.  Otherwise a violation with margin is searched in a region the real iteration
+            reproduces (pinned transfer angle 4 atan(5/12) = 90.5 deg resp. 4 atan(12/5) = 269.5 deg keeps the geometry terms rational, which is
+            what lets nlsat find a model): first on the whole path condition, then on the cone."""
+            v = refute(goal, hyps, timeout_ms)
+            if v.status == "unsat":
+                rep._item(label, "prove", v)
+                rep.sample({"obligation": f"{rep.ob}:{label}", "verdict": "unsat", "what": what})
+                return
+            full = r.constraints + ax + region + [robust]
+            if refute(goal, full, 20000).status == "sat":
+                rep.prove(label + "[margin]", goal, full, timeout_ms=60000, sample=what, **kw)
+            else:
+                rep.prove(label + "[margin, cone]", goal, _cone(z3.And(goal, robust, *region, *ax), r.path, base) + ax + region + [robust], timeout_ms=60000, sample=what, **kw)
+
+        near = [dt.t * 10 >= 9 * K.t * PI, dt.t * 10 <= 11 * K.t * PI]  # time of flight within 10 % of pi sqrt(a_min^3/mu): elliptic, moderate eccentricity
+        cut = z3.And(*info["cuts"]) if info["cuts"] else z3.BoolVal(False)
+        decide(f"{name}/transfer-angle[{tag}]", cut, _cone(cut, r.path, base), z3.BoolVal(True), geom + [n2 * 5 == n1 * 4] + near,
+               "the (sin, cos) pair handed to arctan2 / wrapAngle2Pi is that of the transfer angle in the requested sense", 20000)
+        if _done(rep):
+            return
+        lag_l, lag_r = ((1 - f) * fr.n1).t, ((1 - gd) * fr.n2).t
+        decide(f"{name}/lagrange[{tag}]", lag_l == lag_r, _cone(lag_l == lag_r, r.path, base), z3.Or(lag_l - lag_r > n1 / 1000, lag_r - lag_l > n1 / 1000),
+               geom + [n2 * 5 == n1 * 4] + near, "r1 (1 - f) = r2 (1 - g_dot)  (= a (1 - cos dE))", 20000)
+        if _done(rep):
+            return
+        # Lambert's theorem, the side that needs no transcendental comparison: the minimum-energy time is below half the period of the minimum-energy
+        # ellipse on the short way and above it on the long way, so
+        #   long way  and dt < pi sqrt(a_min^3/mu)  =>  small-alpha conic: dE = alpha0 - beta = alpha0 + beta0
+        #   short way and dt > pi sqrt(a_min^3/mu)  =>  large-alpha conic: dE = 2 pi - alpha0 - beta0           (same cosine)
+        pre = (dt.t < K.t * PI) if tm == -1 else (dt.t > K.t * PI)
+        lhs, rhs = ((1 - f) * fr.n1).t, (A * (1 - cosE)).t
+        goal = z3.Implies(z3.And(A.t > 0, pre), lhs == rhs)
+        cons = _cone(z3.And(goal, *ax), r.path, base) + ax
+        what = ("the Lagrange coefficient f handed to the velocity step is that of the conic Lambert's theorem selects: long way with a time of flight below half the period of the "
+                "minimum-energy ellipse -> eccentric anomaly alpha0 + beta0 swept; short way with more than that time -> 2 pi - alpha0 - beta0")
+        band = [dt.t * 1000 >= 999 * K.t * PI, dt.t < K.t * PI] if tm == -1 else [dt.t > K.t * PI, dt.t * 1000 <= 1001 * K.t * PI]
+        decide(f"{name}/conic[{tag}]", goal, cons, z3.Or(lhs - rhs > n1 / 1000, rhs - lhs > n1 / 1000), geom + [n2 == n1] + band, what)
+        if _done(rep):
+            return
+        # vacuity guard: the premise is met on this path (witness searched at a pinned geometry: radii 7000 / 8000 km, transfer angle 4 atan(3/4) resp. 4 atan(4/3))
+        pin = [fr.n1.t == 7000, fr.n2.t == 8000, info["cq"] * 5 == (4 if tm == 1 else 3), info["sq"] * 5 == (3 if tm == 1 else 4), info["xy"][0].t == 1,
+               dt.t == (2 * K.t * PI if tm == 1 else K.t * PI / 2)]
+        if rep.feasible(f"{name}/path-{tag}", _cone(z3.And(goal, *ax), r.path, base) + ax + [A.t > 0, pre] + pin, timeout_ms=10000) not in (None, True):
+            n_wit += 1
+    if n_ell < 2 or n_wit < 1:
+        rep.error("reach", f"elliptic paths: {n_ell}, with the premise met (witness): {n_wit}")
+
+
+def o6_short(rep):
+    _o6_battin(rep, 1)
+
+
+def o6_long(rep):
+    _o6_battin(rep, -1)
 
 
 # =====================================================================================
@@ -1162,7 +1648,7 @@ def o5b_gate(rep):
         rep.error("reach", "no converged path")
 
 
-REPLAYS = {"O1a": replay_sez, "O1b": replay_obs, "O2": replay_lagrange, "O3s": replay_universal, "O3l": replay_universal, "O3any": replay_universal,
+REPLAYS = {"O1a": replay_sez, "O1b": replay_obs, "O1c": replay_obs_seq, "O1c3": replay_obs_seq, "O2": replay_lagrange, "O3s": replay_universal, "O3l": replay_universal, "O3any": replay_universal, "O3b": replay_bracket, "O6s": replay_battin, "O6l": replay_battin,
            "O4": replay_direction, "O5a": replay_iod_select, "O5a3": replay_iod_select, "O5b": replay_iod_gate}
 
 
@@ -1170,14 +1656,19 @@ def obligations(tier):
     obs = [
         Ob("O1a", o1a_sez, "razel2sez(getRange, getElevation, getAzimuth) = identity on SEZ positions, all branches", 120),
         Ob("O1b", o1b_frames, "radarObs2eciPosition inverts getSlantRangeVector -> range/az/el (site, frames, date)", 200),
+        Ob("O1c", o1c_moving, "radarObs2eciPosition for consecutive observations by one sensor whose state changes between epochs (space-based radar): every conversion exact", 240),
         Ob("O2", o2_lagrange, "_calculateVelocities: r2 = f r1 + g v1, v2 = fdot r1 + gdot v1, h conserved", 60),
         Ob("O3s", o3_short, "lambertUniversal short way, real code, first bisection evaluation: one common Keplerian orbit, requested sense", 240),
         Ob("O3l", o3_long, "lambertUniversal long way, real code, first bisection evaluation: one common Keplerian orbit, requested sense", 240),
         Ob("O3any", o3_any_quick if tier == "quick" else o3_any_thorough, "lambertUniversal for arbitrary iterate values (providers), both senses", 240 if tier == "quick" else 800),
+        Ob("O3b", o3b_quick if tier == "quick" else o3b_thorough, "lambertUniversal: the bisection on psi encloses (and halves towards) the psi of every single-revolution elliptic arc, e <= 0.7, both senses", 240 if tier == "quick" else 800),
+        Ob("O6s", o6_short, "lambertBattin short way: after the iteration (providers), the conic selected for a time of flight >= half the minimum-energy period; Lagrange consistency", 240),
+        Ob("O6l", o6_long, "lambertBattin long way: after the iteration (providers), the conic selected for a time of flight <= half the minimum-energy period; Lagrange consistency", 240),
         Ob("O4", o4_direction, "determineTransferDirection = half-period test of the circular orbit", 60),
         Ob("O5a", o5a_selection, "LambertIOD.determineNewEstimateState over solver-chosen database rows: selection, solver arguments, assembly, refusals", 240),
         Ob("O5b", o5b_gate, "LambertIOD accepts every near-circular arc below 40 % of a period (single-pass gate)", 120),
     ]
     if tier == "thorough":
         obs.append(Ob("O5a3", o5a_selection3, "as O5a with three stored observations", 800))
+        obs.append(Ob("O1c3", o1c_moving3, "as O1c with three consecutive observations", 600))
     return obs
